@@ -1,4 +1,5 @@
 use crate::DbError;
+use crate::DbErrorType;
 use crate::StorageData;
 use crate::collections::bit_set::BitSet;
 use crate::graph::GraphData;
@@ -109,10 +110,12 @@ where
     }
 
     fn expand(&mut self, index: GraphIndex) -> Result<(), DbError> {
-        let node = self
-            .graph
-            .node(self.storage, index)
-            .expect("unexpected invalid node index");
+        let node = self.graph.node(self.storage, index).ok_or_else(|| {
+            DbError::graph(
+                DbErrorType::InvalidIndex,
+                format!("Invalid node index ({}) in path search", index.0),
+            )
+        })?;
         for edge in node.edge_iter_from() {
             self.expand_edge(self.current_path.clone(), edge.index(), edge.index_to())?;
         }
